@@ -45,7 +45,14 @@ func runSolver(name, file string, timeoutS int) solveResult {
 	cmd.Run()
 	secs := time.Since(t0).Seconds()
 	text := out.String()
-	first := strings.TrimSpace(strings.SplitN(text, "\n", 2)[0])
+	first := ""
+	for _, l := range strings.Split(text, "\n") {
+		l = strings.TrimSpace(l)
+		if l == "sat" || l == "unsat" || l == "unknown" || l == "timeout" {
+			first = l
+			break
+		}
+	}
 	res := solveResult{out: text, secs: secs, solver: name}
 	switch {
 	case first == "unsat":
@@ -158,6 +165,25 @@ func discharge(u *Unit, o *Obligation, cfg *solveCfg, idx int) {
 	}
 	if record(runSolver("z3-new", file, cfg.quickT)) {
 		return
+	}
+	if o.Cover {
+		// satisfiability with quantified axioms is often undecided; check the quantifier-free part
+		var sb strings.Builder
+		for _, l := range strings.Split(script, "\n") {
+			if strings.HasPrefix(l, "(assert") && (strings.Contains(l, "(forall ") || strings.Contains(l, "(exists ")) {
+				continue
+			}
+			sb.WriteString(l + "\n")
+		}
+		qf := file + ".qf.smt2"
+		os.WriteFile(qf, []byte(sb.String()), 0o644)
+		r := runSolver("z3-new", qf, cfg.slowT)
+		o.Secs += r.secs
+		if r.status == "sat" || r.status == "unsat" {
+			o.Result = r.status
+			o.Solver = "z3-new(quantifier-free part)"
+			return
+		}
 	}
 	ch := make(chan solveResult, 2)
 	for _, s := range []string{"z3", "cvc5"} {
